@@ -138,9 +138,20 @@ class Stats:
         self.outcomes: Dict[str, int] = {}
         self.samples: List[Any] = []
         self.violations: List[Violation] = []
+        self._kept: Dict[str, int] = {}
         self.notes: Dict[str, Any] = {}
         self.caps: List[str] = []
         self.exhaustive = True
+
+    def room(self, signature: Optional[Dict[str, Any]], cap: int = 200) -> bool:
+        """Violations are kept up to `cap` *per signature*: occurrences of one (possibly known) finding must never use up
+        the room for a different one."""
+        k = repr(sorted((signature or {}).items()))
+        n = self._kept.get(k, 0)
+        if n >= cap:
+            return False
+        self._kept[k] = n + 1
+        return True
 
     def outcome(self, key: str, n: int = 1) -> None:
         self.outcomes[key] = self.outcomes.get(key, 0) + n
@@ -367,7 +378,7 @@ def enumerate_inputs(check: Callable[[Any], Tuple[Optional[Dict[str, Any]], str]
         for k, v in out.items():
             stats.outcome(f"{scenario}:{k}" if keep_outcomes else scenario, v)
         for x, v in bad:
-            if len(stats.violations) < 200:
+            if stats.room(v.get("signature")):
                 rp = dict(v.get("replay", {}), scenario=scenario)
                 if "case" not in rp:
                     rp["input"] = x
